@@ -58,9 +58,9 @@ func main() {
 	rep := vlib.NewReport(cfg)
 	rep.Rule(rule)
 	nsh := cfg.N(16, 64)
-	per := uint64(cfg.N(250, 1250))
-	namesPer := uint64(cfg.N(4000, 40000))
-	racesPer := uint64(cfg.N(8, 20))
+	per := uint64(cfg.N(250, 800)) // the driver runs two seed-derived rounds in thorough
+	namesPer := uint64(cfg.N(4000, 20000))
+	racesPer := uint64(cfg.N(8, 10))
 	var specs []vlib.ChildSpec
 	if cfg.Replay != "" {
 		specs = replaySpecs(cfg)
@@ -96,7 +96,7 @@ func main() {
 		rep.Floor(rep.Counter("selected_blacklisted_fallback-newest") >= q(100, 2000), "blacklisted version prescribed as last resort only %d times", rep.Counter("selected_blacklisted_fallback-newest"))
 		rep.Floor(rep.Counter("op_purge") >= q(1500, 30000), "purges=%d", rep.Counter("op_purge"))
 		rep.Floor(rep.Counter("purge_resources_with_removals") >= q(300, 6000), "purges that removed files=%d", rep.Counter("purge_resources_with_removals"))
-		rep.Floor(rep.Counter("purge_unpacked_path_is_file_of_sibling_resource") >= q(30, 600),
+		rep.Floor(rep.Counter("purge_unpacked_path_is_file_of_sibling_resource") >= q(30, 400),
 			"purges whose unpacked path is the file of a sibling resource (x / x.zip)=%d", rep.Counter("purge_unpacked_path_is_file_of_sibling_resource"))
 		rep.Floor(rep.Counter("blacklist_accepted") >= q(500, 10000) && rep.Counter("blacklist_refused_last_version") >= q(100, 2000),
 			"blacklist accepted=%d refused-last=%d", rep.Counter("blacklist_accepted"), rep.Counter("blacklist_refused_last_version"))
@@ -107,7 +107,7 @@ func main() {
 		if rep.Counter("race_reselection_overtook_a_getfile_call") == 0 && rep.Counter("race_hook_plans_executed") == 0 {
 			rep.Inconclusive("concurrent part: no re-selection ever overtook a GetFile call in %d calls (schedule-dependent); the sequential part is unaffected", rep.Counter("race_getfile_calls"))
 		}
-		rep.Floor(rep.Counter("race_purges") >= q(100, 1000), "concurrent rounds that reached their purge=%d", rep.Counter("race_purges"))
+		rep.Floor(rep.Counter("race_purges") >= q(100, 300), "concurrent rounds that reached their purge=%d", rep.Counter("race_purges"))
 		rep.Floor(rep.Counter("name_roundtrips") >= q(20000, 200000), "name round trips=%d", rep.Counter("name_roundtrips"))
 	}
 	rep.Assume("reference model = the selection order, the definition of 'selectable', the additive flag semantics of AddVersion and the blacklist guard as documented in updater/resource.go and registry.go and in the property statement; own version parser/comparator (numeric segments, release > pre-release, tags lexical)")
